@@ -8,7 +8,7 @@ ID = "C04"
 LEVEL = "exploration"
 RULE = ("Hypothesis-generated sessions: 1-6 operations from {shell, exec_out, streaming_shell, root, list, stat, pull, push} x model "
         "filesystem x device choices (remote ids, WRTE cuts of sync replies, lag of sync replies behind later OKAYs, eager/strict/duplicate "
-        "CLSE, CLSE(0,id) replies, packet order tape) x maxdata x both APIs. Oracle: protocol monitor inside the device model "
+        "CLSE, CLSE(0,id) replies, packet order tape, device-side sync FAILs at SEND/k-th DATA/DONE/RECV, streaming_shell generators abandoned after k items) x maxdata x both APIs. Oracle: protocol monitor inside the device model "
         "(AOSP protocol.txt stream rules) plus end-of-operation accounting per stream. Non-trivial: a stream with >=2 device or host "
         "WRTEs, or >=2 streams. Distinct = distinct case hash.")
 ASSUMPTIONS = ["device simulator/monitor implements the stream rules of AOSP protocol.txt", "in-memory transport, virtual clock"]
@@ -17,7 +17,16 @@ ASSUMPTIONS = ["device simulator/monitor implements the stream rules of AOSP pro
 def stream_accounting(out, case):
     """End-of-operation rules that need the operation's outcome."""
     for i, (op, res) in enumerate(zip(out.ops, out.results)):
-        if "exc" in res or op.get("take") is not None:
+        if "exc" in res:
+            continue
+        if op.get("take") is not None:
+            # the caller abandoned the generator: exactly the WRTEs that were delivered to it are acknowledged
+            s = out.op_streams[i][0] if out.op_streams[i] else None
+            delivered = len(res["ok"])
+            if s is not None and s.okays_from_host != delivered:
+                return Violation("write-not-acknowledged-exactly-once",
+                                 "op %d streaming_shell: %d payloads were delivered to the caller before it abandoned the generator, but the host sent %d OKAYs on stream (local %d)"
+                                 % (i, delivered, s.okays_from_host, s.lid))
             continue
         for s in out.op_streams[i]:
             if s.okays_from_host != len(s.written):
@@ -50,6 +59,10 @@ def check_case(case):
         info["classes"].append("multi-host-write")
     if case["device"].get("zero_clse_reply"):
         info["classes"].append("clse0-reply")
+    if case["device"].get("push_fail") or case["device"].get("recv_fail"):
+        info["classes"].append("device-rejects")
+    if any(o.get("take") for o in case["ops"]):
+        info["classes"].append("abandoned-generator")
     if any(x for x in case["device"].get("lag") or []):
         info["classes"].append("lagging-replies")
     for r in out.results:
@@ -68,5 +81,5 @@ def run(tier, seed):
     t0 = time.time()
     n = 5000 if tier == "quick" else 100000
     col = harness.corpus_part(ID, "main", check_case)
-    col.merge(harness.hypothesis_part("main", sc.session(max_ops=6), check_case, n, seed, shrink=(tier == "thorough")))
+    col.merge(harness.hypothesis_part("main", sc.session(max_ops=6, fail_plans=True), check_case, n, seed, shrink=(tier == "thorough")))
     return harness.finish(ID, tier, seed, LEVEL, col, RULE, ASSUMPTIONS, t0)
